@@ -16,7 +16,7 @@ for k in ("INSIGHTS_CORE_VERIF", "INSIGHTS_CORE_VERIF_TRACE"):
     env.pop(k, None)
 cmd = ["/venv/bin/python", "-m", "pytest", "-ra", "-q", "-p", "no:cacheprovider", "--timeout=900",
        "--continue-on-collection-errors", "--junitxml=" + xml]
-p = subprocess.run(cmd, cwd="/repo", env=env, stdin=subprocess.DEVNULL, stdout=subprocess.PIPE,
+p = subprocess.run(cmd, cwd=os.environ.get("VERIF_REPO", "/repo"), env=env, stdin=subprocess.DEVNULL, stdout=subprocess.PIPE,
                    stderr=subprocess.STDOUT, universal_newlines=True)
 print(p.stdout[-1500:])
 passed = set()
